@@ -64,6 +64,19 @@ def describe(o):
     }
 
 
+def cancellation(sig, pump, pp):
+    """condition number of the idler-angle formula: (sum of the magnitudes of the terms of `arg`) / arg.  `arg` is a difference
+    of squares of order n^2 that equals |closing vector|^2 (lambda_s / 2 pi)^2; when the signal wavelength approaches the pump
+    wavelength the closing vector is tiny and binary64 loses that many digits (tolerances below scale with it)"""
+    ns, npp, ls, lp, ths = fl(sig["n"]), fl(pump["n"]), fl(sig["lambda"]), fl(pump["lambda"]), fl(sig["theta"])
+    kpp = ls / fl(pp["signed_period"]) if pp["on"] else 0.0
+    r = npp * ls / lp
+    nsz = ns * math.cos(ths)
+    arg = ns * ns + r * r + 2 * (kpp * nsz - r * nsz - kpp * r) + kpp * kpp
+    big = ns * ns + r * r + 2 * (abs(kpp * nsz) + abs(r * nsz) + abs(kpp * r)) + kpp * kpp
+    return big / arg if arg > 0 else float("inf")
+
+
 def kvec(beam, n_hex, omega_hex):
     d = vfr(beam["dir"])
     s = fr(n_hex) * fr(omega_hex) / C_LIGHT
@@ -211,7 +224,7 @@ def oracle(ctx, obs):
         rep = dict(d, idler_theta_rad=fl(ib["theta"]), idler_phi_rad=phii, idler_direction=[float(x) for x in di],
                    closing_vector=[float(x) for x in q], sin_angle_between=cr, delta_k=[fl(x) for x in dk["center"]],
                    call="IdlerBeam::try_new_optimum(&signal, &pump, &crystal_setup, &pp); delta_k(ws, wi, ..)")
-        par_ok = cr <= 1e-9 and dt > 0
+        par_ok = cr <= 1e-9 + 1e-14 * cancellation(sig, pump, pp) and dt > 0
         if not par_ok:
             ctx.violation("S5", f"optimum idler is not parallel to the forward closing vector kp - ks - k_eff z: |d_i x q|/|q| = {cr:.3e} "
                           f"(signal polar angle {ths:+.4f} rad, idler polar angle {fl(ib['theta']):+.4f} rad, {i['crystal']} {i['pm_type']})",
@@ -257,10 +270,14 @@ def correspondence(ctx, cases):
         ths = fl(sig["theta"])
         cp = i["counter_propagation"]
         beta = "(-1)" if cp else "1"
+        cn = cancellation(sig, pump, pp)
+        if not cn < 1e9:
+            continue  # closing vector numerically zero: the formula is 0/0-conditioned, nothing to compare
+        ttol = coq_q(Fraction(1, 10**12) + Fraction(cn) / 10**15)
         # idler polar angle, inverted form (Proofs/C03_tac.v: theta_case_sound, angle_unique)
         add(o, "theta",
             f"(let v := idler_val {NS} {THS} (idler_arg {NS} {NP} {LS} {LP} (pp_k_pp {PP} {LS}) {THS}) in "
-            f"Rabs v <= 1 /\\ 0 < cos {THS} /\\ Rabs (sin {THI} - v) <= 1e-12 /\\ 0 <= {beta} * cos {THI} /\\ - PI < {THI} <= PI)")
+            f"Rabs v <= 1 /\\ 0 < cos {THS} /\\ Rabs (sin {THI} - v) <= {ttol} /\\ 0 <= {beta} * cos {THI} /\\ - PI < {THI} <= PI)")
         # directions
         for nm, b in (("sdir", sig), ("idir", ib)):
             g = " /\\ ".join(f"Rabs ({ax} (direction_from_polar {cq(b['phi'])} {cq(b['theta'])}) - {cq(b['dir'][j])}) <= 1e-15"
